@@ -385,7 +385,7 @@ def eval (F : Cx) (ρ : Env) : Expr → Out
                         let st := { st with diags := st.diags ++ vd }
                         if group then { st with kvs := groupInsert k v st.kvs }
                         else if (lookupKey k st.kvs).isSome then
-                          { st with diags := st.diags ++ [⟨"Duplicate object key", [.str kf k]⟩] }
+                          { st with diags := st.diags ++ [⟨"Duplicate object key", if st.marks.m then [] else [.str kf k]⟩] }
                         else { st with kvs := groupInsert k v st.kvs }
                       | _ => { st with known := false }
               match cond with
